@@ -187,6 +187,14 @@ class DropletBase:
         # create a staticmethod for merging droplet data
         cls._merge_data = staticmethod(cls._make_merge_data())
 
+    def __getstate__(self):
+        return {"data": self.data}
+
+    def __setstate__(self, state):
+        # numpy records restored by pickle silently ignore in-place modifications, so
+        # we store a copy, which behaves normally again
+        self.data = state["data"].copy()
+
     def __eq__(self, other):
         if not isinstance(other, self.__class__):
             return NotImplemented
